@@ -570,6 +570,7 @@ func (w *Writer) Close() error {
 	}
 
 	w.mutex.Unlock()
+	verifPoint("writer.closeMarked")
 	w.group.Wait()
 
 	if w.transport != nil {
@@ -615,6 +616,7 @@ func (w *Writer) WriteMessages(ctx context.Context, msgs ...Message) error {
 		return io.ErrClosedPipe
 	}
 	defer w.leave()
+	verifPoint("writer.entered")
 
 	if len(msgs) == 0 {
 		return nil
@@ -663,6 +665,7 @@ func (w *Writer) WriteMessages(ctx context.Context, msgs ...Message) error {
 		assignments[key] = append(assignments[key], int32(i))
 	}
 
+	verifPoint("writer.beforeBatch")
 	batches := w.batchMessages(msgs, assignments)
 	if w.Async {
 		return nil
@@ -1075,6 +1078,7 @@ func (ptw *partitionWriter) newWriteBatch() *writeBatch {
 func (ptw *partitionWriter) awaitBatch(batch *writeBatch) {
 	select {
 	case <-batch.timer.C:
+		verifPoint("writer.timerFired")
 		ptw.mutex.Lock()
 		// detach the batch from the writer if we're still attached
 		// and queue for writing.
@@ -1131,8 +1135,10 @@ func (ptw *partitionWriter) writeBatch(batch *writeBatch) {
 			log.Printf("writing %d messages to %s (partition: %d)", len(batch.msgs), key.topic, key.partition)
 		})
 
+		verifPoint("writer.beforeProduce")
 		start := time.Now()
 		res, err = ptw.w.produce(key, batch)
+		verifPoint("writer.afterProduce")
 
 		stats.writes.observe(1)
 		stats.messages.observe(int64(len(batch.msgs)))
